@@ -58,7 +58,7 @@ func (c04Checker) Meta() CheckerMeta {
 
 func c04Gen(tp *Tapes) *c04Spec {
 	g := tp.Gen
-	sp := &c04Spec{Prog: GenProgram(g, 6+g.DrawD(22, 50))}
+	sp := &c04Spec{Prog: GenProgramOpt(g, 6+g.DrawD(22, 50), true)}
 	sp.Loader = []string{"fs", "virt", "http"}[g.Draw(3)]
 	sp.Via = []string{"FromFile", "FromCache", "FromString"}[g.Draw(3)]
 	np := 2 + g.Draw(3)
@@ -105,8 +105,8 @@ type c04Side struct {
 	pool []pongo2.Context
 }
 
-func c04Compile(sp *c04Spec, disk *DiskSpec) (*c04Side, string) {
-	w := NewWorld([]*DiskSpec{disk})
+func c04Compile(sp *c04Spec, disk []*DiskSpec) (*c04Side, string) {
+	w := NewWorld(disk)
 	old := SetCurWorld(w)
 	defer SetCurWorld(old)
 	s := &c04Side{w: w, set: w.NewProgSet(sp.Prog, "P", sp.Loader)}
